@@ -27,6 +27,7 @@ import (
 	"time"
 
 	"github.com/segmentio/kafka-go/protocol"
+	"github.com/segmentio/kafka-go/protocol/fetch"
 	"kverif/kvfmt"
 	"kverif/schemawalk"
 )
@@ -214,12 +215,19 @@ func main() {
 		sc.Buffer(make([]byte, 1<<20), 1<<28)
 		for sc.Scan() {
 			f := strings.Fields(sc.Text())
-			if len(f) < 4 || f[1] != "dec" {
+			if len(f) < 4 || (f[1] != "dec" && f[1] != "decrec") {
 				continue
 			}
 			idx, _ := strconv.Atoi(f[2])
 			frame, _ := hex.DecodeString(strings.TrimPrefix(f[3], "."))
 			r := decodeResponse(&schemas[idx], frame)
+			if f[1] == "decrec" {
+				// implementation-only predicate: the class, never the value
+				r = strings.Join(strings.Fields(r)[:min(2, len(strings.Fields(r)))], " ")
+				if strings.HasPrefix(r, "ok") {
+					r = "ok"
+				}
+			}
 			fmt.Fprintf(out, "%s %s\n", f[0], r)
 			out.Flush()
 			if r == "hang" {
@@ -230,6 +238,7 @@ func main() {
 	}
 
 	r := rand.New(rand.NewSource(*seed))
+	genRecordMutations(r, schemas, *muts)
 	for idx := range schemas {
 		s := &schemas[idx]
 		if s.Override >= 0 {
@@ -396,8 +405,93 @@ func main() {
 					}
 				}
 			}
+			// two malformed fields at once: a huge declared frame size AND a huge count,
+			// the residual case where allocation follows the declared size
+			if c == 0 {
+				for _, l := range lens {
+					if l.what == "string" || l.what == "tagcount" || l.what == "tagsize" {
+						continue
+					}
+					off := hdr + l.off
+					var f []byte
+					if l.kind == "i32" {
+						f = append([]byte(nil), frame...)
+						binary.BigEndian.PutUint32(f[off:], 0x7ffffff0)
+					} else if l.kind == "uv" {
+						var vb []byte
+						putUvarint(&vb, 0x7ffffff0)
+						f = append(append(append([]byte(nil), frame[:off]...), vb...), frame[off+l.n:]...)
+					} else {
+						continue
+					}
+					binary.BigEndian.PutUint32(f[0:4], 0x7fffffff)
+					ms = append(ms, mut{f, "mut-declared-huge-" + l.what})
+					break
+				}
+			}
 			for _, m := range ms {
 				emit("dec", fmt.Sprintf("%d %s", idx, kvfmt.Bytes(m.frame)), "", m.feat)
+			}
+		}
+	}
+}
+
+// genRecordMutations: fetch responses carrying real record sets (message format 1
+// and 2, with headers), mutated inside the record-set region.  The schema model
+// delegates record sets to C05, so these cases only carry the implementation-side
+// predicate of C20/C17: the outcome is a decoded message or an error.
+func genRecordMutations(r *rand.Rand, schemas []schemawalk.Schema, muts int) {
+	for idx := range schemas {
+		s := &schemas[idx]
+		if !(s.Response && s.Api == int(protocol.Fetch) && s.Override < 0) {
+			continue
+		}
+		if s.Version != 4 && s.Version != 11 && !(muts == 0) {
+			continue // quick tier: one old and one recent version
+		}
+		for _, rv := range []int8{1, 2} {
+			recs := []protocol.Record{
+				{Offset: 10, Time: time.UnixMilli(1700000000123), Key: protocol.NewBytes([]byte("k1")), Value: protocol.NewBytes([]byte("value-1"))},
+				{Offset: 11, Time: time.UnixMilli(1700000000456), Value: protocol.NewBytes([]byte("v2"))},
+			}
+			if rv == 2 {
+				recs[1].Headers = []protocol.Header{{Key: "h", Value: []byte("x")}}
+			}
+			msg := &fetch.Response{Topics: []fetch.ResponseTopic{{Topic: "t", Partitions: []fetch.ResponsePartition{{
+				Partition: 0, HighWatermark: 12,
+				RecordSet: protocol.RecordSet{Version: rv, Records: protocol.NewRecordReader(recs...)},
+			}}}}}
+			var buf bytes.Buffer
+			if err := protocol.WriteResponse(&buf, int16(s.Version), 7, msg); err != nil {
+				emit("decrec", fmt.Sprintf("%d .", idx), "ENCODE-ERROR:"+err.Error(), "recordset")
+				continue
+			}
+			frame := buf.Bytes()
+			emit("decrec", fmt.Sprintf("%d %s", idx, kvfmt.Bytes(frame)), "", fmt.Sprintf("recordset-v%d,intact", rv))
+			start := bytes.Index(frame, []byte{0, 1, 't'}) // topic name, the record set follows the partition header
+			if start < 0 {
+				start = 8
+			}
+			for off := start; off < len(frame); off++ {
+				if muts != 0 && r.Intn(3) != 0 {
+					continue
+				}
+				for _, x := range []uint32{0xffffffff, 0x7fffffff, 0x80000000, 0} {
+					if off+4 > len(frame) {
+						break
+					}
+					f := append([]byte(nil), frame...)
+					binary.BigEndian.PutUint32(f[off:], x)
+					emit("decrec", fmt.Sprintf("%d %s", idx, kvfmt.Bytes(f)), "", fmt.Sprintf("recordset-v%d,mut32", rv))
+				}
+				for _, x := range []byte{0x80, 0xff, 0x7f} {
+					f := append([]byte(nil), frame...)
+					f[off] = x
+					emit("decrec", fmt.Sprintf("%d %s", idx, kvfmt.Bytes(f)), "", fmt.Sprintf("recordset-v%d,mut8", rv))
+				}
+				if off%7 == 0 {
+					emit("decrec", fmt.Sprintf("%d %s", idx, kvfmt.Bytes(frame[:off])), "", fmt.Sprintf("recordset-v%d,cut", rv))
+				}
 			}
 		}
 	}
